@@ -26,6 +26,8 @@ type fragSched struct {
 	K         int        `json:"k"`
 	N         int        `json:"n"`
 	Processed []string   `json:"processed"`
+	Bound     int        `json:"bound"`
+	Bound0    int        `json:"bound0"`
 }
 
 // cmdFragCheck: (a) replays Frag.tla's arrival schedules on a real Conversation and compares the
@@ -180,8 +182,17 @@ func cmdFragCheck(args []string) int {
 func replayFrag(fsch *fragSched, version int) string {
 	w := world.New(3, nil)
 	p := w.AddParty("B", "A", world.PolicyFromBits(3), version)
-	var our, their, foreign uint32 = 0x00abcdef, 0x00fedcba, 0x00777777
-	otr3.VerifSetInstanceTags(p.Conv, our, 0)
+	var our, their, foreign, otherOurs uint32 = 0x00abcdef, 0x00fedcba, 0x00777777, 0x00555555
+	if version == 2 {
+		// the v2 wire format has no instances: schedules with a stranger's fragment do not apply
+		for _, s := range fsch.Steps {
+			if s.T == "stranger" {
+				return ""
+			}
+		}
+	}
+	boundTag := map[int]uint32{0: 0, 1: their, 2: foreign}
+	otr3.VerifSetInstanceTags(p.Conv, our, boundTag[fsch.Bound0])
 	payload := map[string]string{"M": "message-M-111222333", "N": "note-N-4455"}
 	total := map[string]int{"M": 3, "N": 2}
 	piece := func(m string, k int) string {
@@ -197,9 +208,10 @@ func replayFrag(fsch *fragSched, version int) string {
 		}
 		return s[lo:hi]
 	}
+	rcv := our
 	line := func(st uint32, k, n int, pc string) []byte {
 		if version == 3 {
-			return []byte(fmt.Sprintf("?OTR|%08x|%08x,%05d,%05d,%s,", st, our, k, n, pc))
+			return []byte(fmt.Sprintf("?OTR|%08x|%08x,%05d,%05d,%s,", st, rcv, k, n, pc))
 		}
 		return []byte(fmt.Sprintf("?OTR,%05d,%05d,%s,", k, n, pc))
 	}
@@ -221,8 +233,13 @@ func replayFrag(fsch *fragSched, version int) string {
 			if version == 2 {
 				in = []byte("?OTR,zz,1,x,") // v2 has no instances: an unparsable fragment instead
 			} else {
-				in = line(foreign, 2, 3, "x")
+				// the peer's fragment for another of our instances
+				rcv = otherOurs
+				in = line(their, 2, 3, "x")
+				rcv = our
 			}
+		case "stranger":
+			in = line(foreign, 2, 3, "x")
 		case "garbage":
 			if version == 3 {
 				in = []byte("?OTR|zzzz")
@@ -249,6 +266,9 @@ func replayFrag(fsch *fragSched, version int) string {
 	st := otr3.VerifProject(p.Conv)
 	if int(st.FragIndex) != fsch.K || int(st.FragLen) != fsch.N {
 		return fmt.Sprintf("context (%d,%d), specification says (%d,%d)", st.FragIndex, st.FragLen, fsch.K, fsch.N)
+	}
+	if version == 3 && st.TheirTag != boundTag[fsch.Bound] {
+		return fmt.Sprintf("bound to peer instance %#x, specification says %#x", st.TheirTag, boundTag[fsch.Bound])
 	}
 	if strings.Join(processed, ",") != strings.Join(fsch.Processed, ",") {
 		return fmt.Sprintf("processed %v, specification says %v", processed, fsch.Processed)
